@@ -225,3 +225,190 @@ theorem statement_round_trip_text_any (d : Gen.D) (s : Stmt) (hs : FragAny d s =
     simp [h1]
 
 end C01
+
+/-! ## a decidable form of the payload hypotheses, non-vacuity -/
+namespace C03.AnyText
+open C03.Rest C03.Q2Text
+
+def tblLeafB (t : TableName) : Bool := C18.optB C03.nameLexB t.schema && C03.nameLexB t.name
+def cfgLexB (s : String) : Bool :=
+  (plainL (cfgSplit s).1.toList && (cfgSplit s).2.all fun x => plainL x.2.toList) ||
+  ((cfgSplit s).2.isEmpty && C18.srcLexB (cfgSplit s).1 && !isDecimal (cfgSplit s).1)
+def coiLeafB (d : Gen.D) : ColOrIdx → Bool
+  | .col c => C18.leafColB d c
+  | .idx i => C18.leafIdxB i
+  | .fk k => C18.leafFkB k
+def opLeafB (d : Gen.D) : AlterOp → Bool
+  | .addPartition _ p => (leavesL4 p).all (leafOK2B d)
+  | .add x => coiLeafB d x
+  | .modify x => coiLeafB d x
+  | .change f t => C03.nameLexB f && coiLeafB d t
+  | .renameColumn f t => C03.nameLexB f && C03.nameLexB t
+  | .dropColumn c => C03.nameLexB c
+  | .dropPartition _ p => (leavesL4 p).all (leafOK2B d)
+/-- `LeafAny d s`, decidable -/
+def leafAnyB (d : Gen.D) : Stmt → Bool
+  | .createTable c => C18.leafCB d c
+  | .dropTable _ t => tblLeafB t
+  | .truncate t => tblLeafB t
+  | .msck t => tblLeafB t
+  | .use s => C18.srcLexB s
+  | .set c => cfgLexB c.name && cfgLexB c.value
+  | .analyze t p _ _ _ => tblLeafB t && (leavesPart p).all (leafOK2B d)
+  | .alter t ops => tblLeafB t && ops.all (opLeafB d)
+  | .showDatabases => true
+  | .showTables => true
+  | .showColumns fr wh => (leavesTables4 fr ++ leavesO4 wh).all (leafOK2B d)
+  | .createTableAs t _ q => tblLeafB t && (leavesStmt (.select q)).all (leafOK2B d)
+  | s => (leavesStmt s).all (leafOK2B d)
+
+theorem on2_of_B (d : Gen.D) (l : List Leaf2) (h : l.all (leafOK2B d) = true) : On2 (leafOK2 d) l :=
+  fun x hx => leafOK2_of_B d x ((List.all_eq_true.mp h) x hx)
+theorem tblLeaf_of_B (t : TableName) (h : tblLeafB t = true) : tblLeaf t := by
+  simp only [tblLeafB, Bool.and_eq_true] at h
+  refine ⟨?_, C18.nameLex_of_B _ h.2⟩
+  cases hs : t.schema with
+  | none => trivial
+  | some x => rw [hs] at h; exact C18.nameLex_of_B _ h.1
+theorem cfgLex_of_B (s : String) (h : cfgLexB s = true) : cfgLex s := by
+  simp only [cfgLexB, Bool.or_eq_true, Bool.and_eq_true, List.all_eq_true, List.isEmpty_iff, Bool.not_eq_true'] at h
+  rcases h with h | h
+  · exact Or.inl h
+  · exact Or.inr ⟨h.1.1, C18.srcLex_of_B _ h.1.2, h.2⟩
+theorem coiLeaf_of_B (d : Gen.D) (x : ColOrIdx) (h : coiLeafB d x = true) : coiLeaf d x := by
+  cases x with
+  | col c => exact C18.leafCol_of_B d c h
+  | idx i => exact C18.leafIdx_of_B i h
+  | fk k => exact C18.leafFk_of_B k h
+theorem opLeaf_of_B (d : Gen.D) (o : AlterOp) (h : opLeafB d o = true) : opLeaf d o := by
+  cases o with
+  | addPartition b p => exact on2_of_B d _ h
+  | dropPartition b p => exact on2_of_B d _ h
+  | add x => exact coiLeaf_of_B d x h
+  | modify x => exact coiLeaf_of_B d x h
+  | change f t =>
+    simp only [opLeafB, Bool.and_eq_true] at h
+    exact ⟨C18.nameLex_of_B _ h.1, coiLeaf_of_B d t h.2⟩
+  | renameColumn f t =>
+    simp only [opLeafB, Bool.and_eq_true] at h
+    exact ⟨C18.nameLex_of_B _ h.1, C18.nameLex_of_B _ h.2⟩
+  | dropColumn c => exact C18.nameLex_of_B _ h
+theorem leafAny_of_B (d : Gen.D) (s : Stmt) (h : leafAnyB d s = true) : LeafAny d s := by
+  cases s with
+  | select q => exact on2_of_B d _ h
+  | insertValues hd vs => exact on2_of_B d _ h
+  | insertSelect hd q => exact on2_of_B d _ h
+  | update ws t sets wh ob lm => exact on2_of_B d _ h
+  | delete t wh ob lm => exact on2_of_B d _ h
+  | createTable c => exact C18.leafC_of_B d c h
+  | dropTable b t => exact tblLeaf_of_B t h
+  | truncate t => exact tblLeaf_of_B t h
+  | msck t => exact tblLeaf_of_B t h
+  | use s => exact C18.srcLex_of_B s h
+  | set c =>
+    simp only [leafAnyB, Bool.and_eq_true] at h
+    exact ⟨cfgLex_of_B _ h.1, cfgLex_of_B _ h.2⟩
+  | analyze t p fc cm ns =>
+    simp only [leafAnyB, Bool.and_eq_true] at h
+    exact ⟨tblLeaf_of_B t h.1, on2_of_B d _ h.2⟩
+  | alter t ops =>
+    simp only [leafAnyB, Bool.and_eq_true] at h
+    exact ⟨tblLeaf_of_B t h.1, fun o ho => opLeaf_of_B d o ((List.all_eq_true.mp h.2) o ho)⟩
+  | showDatabases => trivial
+  | showTables => trivial
+  | showColumns fr wh => exact on2_of_B d _ h
+  | createTableAs t ine q =>
+    simp only [leafAnyB, Bool.and_eq_true] at h
+    exact ⟨tblLeaf_of_B t h.1, on2_of_B d _ h.2⟩
+
+/-- the mirror is the printer's text, the hypotheses hold, the lexer gives the rendering, the text has no `==` (compiled evaluation, a test) -/
+def agreesA (d : Gen.D) (s : Stmt) : Bool :=
+  FragAny d s && printableAny d s && leafAnyB d s &&
+    (match PR.prStmt d s with | .ok x => x.toList == anyL d s && eqbL (lexed x) (toksAny d s) | .error _ => false)
+/-- the model of the public entry point on the printed text gives the statement back -/
+def parsesBack (d : Gen.D) (s : Stmt) : Bool :=
+  match PM.parseStatementsText d (anyL d s) with
+  | .ok [st] => Drv.showVal st.toVal == Drv.showVal s.toVal
+  | _ => false
+-- every class, MYSQL and HIVE (`a1`: every kind of ALTER clause; `st1`–`st3`: dotted / dashed / quoted configuration strings; `l1`–`l6`:
+-- data-change statements and WITH over the larger query fragment; `C18.t1` / `t2`: CREATE TABLE)
+#guard [a1, a3, dr1, dr2, tr1, ms1, us1, us2, st1, st2, st3, an2, sc1, sc2, ca1, ca2, ca3, .showDatabases, .showTables, l1, l2, C03.Dml.d1, C03.Dml.u1,
+    C03.Dml.i1, C03.Dml.w1, .select q2w1, .select q2w2, .createTable C18.t2].all (agreesA .MYSQL) &&
+  [a2, a3, dr1, dr2, tr1, ms1, us1, us2, st1, st2, st3, an1, an2, an3, an4, sc1, sc2, ca1, ca2, ca3, .showDatabases, .showTables, l1, l2, l3, l5,
+    C03.Dml.d1, C03.Dml.i3, C03.Dml.w1, .select q2w2, .createTable C18.t1].all (agreesA .HIVE) &&
+  [a2, dr1, st1, sc1, ca1, l2].all (agreesA .ORACLE) && [a2, dr1, us1, sc2, ca2, l1].all (agreesA .POSTGRE_SQL)
+#guard [a1, a3, dr1, tr1, ms1, us1, us2, st1, st2, st3, an2, sc1, sc2, ca1, ca3, .showDatabases, l1, l2, .createTable C18.t2].all (parsesBack .MYSQL) &&
+  [a2, dr2, us1, st1, an1, an3, an4, sc1, ca1, ca3, .showTables, l3, l5, .createTable C18.t1].all (parsesBack .HIVE)
+-- what the printer writes
+#guard anyL .MYSQL a3 == "ALTER TABLE `t` \nDROP COLUMN `c`".toList && anyL .HIVE an4 == "ANALYZE TABLE `t`  COMPUTE STATISTICS FOR COLUMNS".toList &&
+  anyL .HIVE an1 == "ANALYZE TABLE `t` PARTITION (`dt` = '1')  COMPUTE STATISTICS FOR COLUMNS CACHE METADATA NOSCAN".toList &&
+  anyL .MYSQL st1 == "SET hive.exec.dynamic-partition.mode=nonstrict".toList && anyL .MYSQL dr1 == "DROP TABLE IF EXISTS `s.t`".toList &&
+  anyL .MYSQL sc2 == "SHOW COLUMNS FROM `t`".toList
+-- outside: the printer raises (ANALYZE for ORACLE, CREATE TABLE for ORACLE); SET values the lexer splits differently from the token printer
+#guard !printableAny .ORACLE an2 && (match PR.prStmt .ORACLE an2 with | .error .notSupported => true | _ => false) &&
+  !printableAny .ORACLE (.createTable C18.t2) && (match PR.prStmt .ORACLE (.createTable C18.t2) with | .error _ => true | _ => false) &&
+  FragAny .MYSQL st4 && !leafAnyB .MYSQL st4 && !cfgLexB "x-1.5" && cfgOK "x-1.5" && cfgLexB "a_b.c-d" && cfgLexB "'x.y'" && cfgLexB "12"
+/-- **the SET restriction is needed (the token rendering, not the code):** `SET a=x-1.5` — the token-level printer renders the value as ONE
+token, the lexer reads three (`x`, `-`, `1.5`); the parser rebuilds the same string from them, so the statement round-trips all the same -/
+def stX : Stmt := .set ⟨"a", "x-1.5"⟩
+#guard FragAny .MYSQL stX && (match PR.prStmt .MYSQL stX with | .ok x => !eqbL (lexed x) (toksAny .MYSQL stX) && (lexed x).length == 6 | _ => false) &&
+  (match PM.parseStatementsText .MYSQL "SET a=x-1.5".toList with | .ok [.set c] => c.name == "a" && c.value == "x-1.5" | _ => false)
+-- a script mixing nine classes, separators with layout; the printer's own output (`C10.printedText`)
+def mix : List (Stmt × List Char) :=
+  [(us1, ";\n".toList), (st1, " ; ".toList), (.createTable C18.t2, ";\n\n".toList), (a1, "\n;\n".toList), (l1, ";".toList),
+   (an2, " ;".toList), (C03.Dml.u1, ";\n".toList), (sc1, ";".toList), (ca3, ";  ".toList), (dr1, "\n".toList)]
+#guard (match PM.parseStatementsText .MYSQL (C10.scriptOf C10.Part.text (mix.map fun it => ⟨C10.printedText .MYSQL it.1, it.2, toksAny .MYSQL it.1, it.1⟩)) with
+  | .ok sts => sts.length == 10 && (sts.zip mix).all fun p => Drv.showVal p.1.toVal == Drv.showVal p.2.1.toVal
+  | _ => false)
+#guard (match PM.parseStatementsText .HIVE (C10.scriptOf C10.Part.text ([(us1, ";\n".toList), (.createTable C18.t1, " ;\n".toList), (a2, ";".toList),
+    (l5, ";\n".toList), (an1, ";".toList), (ms1, ";".toList), (ca1, [])].map (C03.anyPart .HIVE))) with
+  | .ok [.use _, .createTable _, .alter _ _, .insertValues _ _, .analyze _ (some _) true true true, .msck _, .createTableAs _ true _] => true
+  | _ => false)
+
+
+/-! instances of the theorems (hypotheses decided by the kernel, conclusions the theorems'): no qualified table, no LIMIT, no SET
+(`String.splitOn`, `toString` of integers do not reduce in the kernel) -/
+set_option maxRecDepth 100000 in
+example : ∃ str ts, PR.prStmt .HIVE k1 = .ok str ∧ Lex.lex Gen.cfgS (dialectPre .HIVE str.toList) = .ok ts ∧ ts = toksAny .HIVE k1 ∧
+    pStatement .HIVE (fuelFor ts) ts = .ok (k1, []) ∧ parseStatementsText .HIVE str.toList = .ok [k1] :=
+  C03.tstatement_any_text .HIVE k1 (by decide) (by decide) (leafAny_of_B _ _ (by decide +kernel)) (C03.hive_pre_of_occ _ (by decide +kernel))
+/-- the five hypotheses on one item of a script, for HIVE / for a dialect without pre-pass patterns -/
+macro "hive_item" : tactic =>
+  `(tactic| exact ⟨by decide, by decide, leafAny_of_B _ _ (by decide +kernel), C03.hive_pre_of_occ _ (by decide +kernel), by decide⟩)
+macro "my_item" : tactic =>
+  `(tactic| exact ⟨by decide, by decide, leafAny_of_B _ _ (by decide +kernel), C03.pre_any_id _ (by decide) (by decide) _, by decide⟩)
+/-- the items of a script mixing eight classes: ALTER TABLE, DROP TABLE, a DELETE, CREATE TABLE (which swallows its `;` itself), a query of
+`FragQ2`, ANALYZE TABLE, SHOW COLUMNS, CREATE TABLE … AS — separators with layout, the last statement without `;` -/
+def kmix : List (Stmt × List Char) :=
+  [(k1, " ;\n".toList), (k2, ";".toList), (C03.Dml.d0, ";\n".toList), (.createTable C18.t1, "\n;\n".toList), (.select q2w2c, ";".toList),
+   (k3, "; ".toList), (k4, ";".toList), (k5, "\n".toList)]
+set_option maxRecDepth 100000 in
+example : parseStatementsText .HIVE (C10.scriptOf C10.Part.text (kmix.map (C03.anyPart .HIVE))) = .ok (kmix.map (·.1)) :=
+  (C03.tscript_any_text .HIVE (by decide) kmix
+    (by
+      intro it hit
+      simp only [kmix, List.mem_cons, List.not_mem_nil, or_false] at hit
+      rcases hit with rfl | rfl | rfl | rfl | rfl | rfl | rfl | rfl <;> hive_item)
+    ⟨by decide, by decide, by decide, by decide, by decide, by decide, by decide, (by decide : (C10.semis "\n".toList).length ≤ 1)⟩).2
+set_option maxRecDepth 100000 in
+/-- `C01.statement_round_trip_text_any` on an ALTER TABLE for MYSQL (a column with attributes, a key, a foreign key) and on a data-change
+statement over the larger fragment (`DELETE … WHERE m['k'] = 1` is HIVE-only: here `DELETE … WHERE EXTRACT(year FROM ts) > 2000`) -/
+def k6 : Stmt := .alter (tn "t") [.add (.col { name := "a", type := ⟨"int", none⟩, notNull := true, comment := some "'x'" }),
+  .add (.idx ⟨.normal, some "k", [⟨"a", none⟩], some "BTREE", none, none⟩), .add (.fk ⟨"fk", ["a"], "p", ["x"], some "CASCADE", none⟩),
+  .renameColumn "c" "d"]
+set_option maxRecDepth 100000 in
+example : ∃ str ts, PR.prStmt .MYSQL k6 = .ok str ∧ Lex.lex Gen.cfgS (dialectPre .MYSQL str.toList) = .ok ts ∧
+    pStatement .MYSQL (fuelFor ts) ts = .ok (k6, []) ∧ (∀ s', pStatement .MYSQL (fuelFor ts) ts = .ok (s', []) → PR.prStmt .MYSQL s' = .ok str) ∧
+    parseStatementsText .MYSQL str.toList = .ok [k6] ∧
+    (∀ sts, parseStatementsText .MYSQL str.toList = .ok sts → sts.map (PR.prStmt .MYSQL) = [.ok str]) :=
+  C01.statement_round_trip_text_any .MYSQL k6 (by decide) (by decide) (leafAny_of_B _ _ (by decide +kernel)) (C03.pre_any_id _ (by decide) (by decide) _)
+set_option maxRecDepth 100000 in
+example : parseStatementsText .MYSQL (C10.scriptOf C10.Part.text ([(k6, ";\n".toList), (l7, " ; ".toList), (k2, [])].map
+    fun it => ⟨C10.printedText .MYSQL it.1, it.2, toksAny .MYSQL it.1, it.1⟩)) = .ok [k6, l7, k2] :=
+  C10.script_of_printed_statements .MYSQL (by decide) [(k6, ";\n".toList), (l7, " ; ".toList), (k2, [])]
+    (by
+      intro it hit
+      simp only [List.mem_cons, List.not_mem_nil, or_false] at hit
+      rcases hit with rfl | rfl | rfl <;> my_item)
+    ⟨by decide, by decide, (by decide : (C10.semis []).length ≤ 1)⟩
+end C03.AnyText
